@@ -7,6 +7,75 @@ use embedded_graphics::{
     primitives::{Circle, ContainsPoint, CornerRadii, Ellipse, PointsIter, Rectangle, RoundedRectangle, Sector, Triangle},
 };
 
+/// cheap necessary condition for large shapes: see the generator "display-scale-row-boundaries"
+fn row_boundaries<P>(ctx: &mut Ctx, kind: &'static str, p: &P, desc: &dyn Fn() -> String, rng: &mut Rng)
+where
+    P: PointsIter + ContainsPoint + Dimensions,
+{
+    ctx.eval();
+    let bb = p.bounding_box();
+    let budget = bb.size.width as u64 * bb.size.height as u64 + 8;
+    let case = || desc();
+    let mut runs: Vec<(i32, i32, i32)> = Vec::new(); // (y, first x, last x)
+    let mut n = 0u64;
+    for q in p.points() {
+        n += 1;
+        if n > budget {
+            ctx.violation(format!("{}|points-more-than-bounding-box-area", kind), case, || format!("more than {} points", budget));
+            return;
+        }
+        match runs.last_mut() {
+            Some(r) if r.0 == q.y => {
+                if q.x != r.2 + 1 {
+                    ctx.violation(format!("{}|points-row-not-one-ascending-run", kind), case, || format!("row {}: {} follows {}", q.y, q.x, r.2));
+                    return;
+                }
+                r.2 = q.x;
+            }
+            Some(r) if q.y < r.0 => {
+                ctx.violation(format!("{}|points-not-row-major", kind), case, || format!("row {} after row {}", q.y, r.0));
+                return;
+            }
+            _ => runs.push((q.y, q.x, q.x)),
+        }
+    }
+    for &(y, x0, x1) in &runs {
+        for (x, want) in [(x0, true), (x1, true), (x0 - 1, false), (x1 + 1, false), ((x0 + x1) / 2, true)] {
+            if p.contains(Point::new(x, y)) != want {
+                ctx.violation(
+                    format!("{}|{}", kind, if want { "points-yields-points-contains-rejects" } else { "contains-accepts-points-not-yielded" }),
+                    case,
+                    || format!("row {}: points() yields x {}..={}, contains(({},{})) = {}", y, x0, x1, x, y, !want),
+                );
+                return;
+            }
+        }
+    }
+    // rows without any yielded point, and random points: contains() must agree with the runs
+    let by_row: std::collections::HashMap<i32, (i32, i32)> = runs.iter().map(|r| (r.0, (r.1, r.2))).collect();
+    for _ in 0..64 {
+        let q = Point::new(bb.top_left.x + rng.i32r(-2, bb.size.width as i32 + 1), bb.top_left.y + rng.i32r(-2, bb.size.height as i32 + 1));
+        let want = by_row.get(&q.y).map_or(false, |&(a, b)| q.x >= a && q.x <= b);
+        if p.contains(q) != want {
+            ctx.violation(format!("{}|{}", kind, if want { "points-yields-points-contains-rejects" } else { "contains-accepts-points-not-yielded" }), case, || format!("{:?}: contains() = {}, yielded by points() = {}", q, !want, want));
+            return;
+        }
+    }
+    for y in [bb.top_left.y, bb.top_left.y + bb.size.height as i32 - 1] {
+        if !by_row.contains_key(&y) {
+            for x in bb.top_left.x..bb.top_left.x + bb.size.width as i32 {
+                if p.contains(Point::new(x, y)) {
+                    ctx.violation(format!("{}|contains-accepts-points-not-yielded", kind), case, || format!("row {} yields nothing but contains(({},{})) is true", y, x, y));
+                    return;
+                }
+            }
+        }
+    }
+    ctx.count("display_scale_shapes_walked", 1);
+    ctx.count("points_walked", n);
+    ctx.nontrivial(egmon::rng::hash_str(&case()));
+}
+
 fn check<P>(ctx: &mut Ctx, kind: &'static str, p: &P, desc: &dyn Fn() -> String, rng: &mut Rng)
 where
     P: PointsIter + ContainsPoint + Dimensions,
@@ -217,6 +286,30 @@ fn main() {
             let (start, sweep) = (zoo::gen_angle(rng), zoo::gen_angle(rng));
             let s = Sector::new(pos(rng), d, start.deg(), sweep.deg());
             check(ctx, "sector", &s, &|| format!("Sector {{ top_left: {:?}, diameter: {}, start: {} deg, sweep: {} deg }}", s.top_left, d, start, sweep), rng);
+        });
+        // display-scale ellipses, circles and rounded rectangles (both sides in the hundreds): the full
+        // probe costs width x height contains() calls, so here the rows of points() are walked once
+        // (row-major, one contiguous run per row) and contains() is probed at both ends of every run
+        // and one pixel beyond them, plus random points - a necessary condition that is cheap enough
+        // for thousands of sizes
+        let nb = run.tier(2500u64, 120_000u64);
+        run.generate("display-scale-row-boundaries", nb, false, 0.15, |ctx, idx, rng| {
+            let (w, h) = (rng.u32r(100, 1300), rng.u32r(100, 1000));
+            let tl = Point::new(rng.i32r(-700, 300), rng.i32r(-700, 300));
+            match idx % 4 {
+                0 | 1 => {
+                    let e = Ellipse::new(tl, Size::new(w, h));
+                    row_boundaries(ctx, "ellipse", &e, &|| format!("{:?}", e), rng);
+                }
+                2 => {
+                    let c = Circle::new(tl, w);
+                    row_boundaries(ctx, "circle", &c, &|| format!("{:?}", c), rng);
+                }
+                _ => {
+                    let rr = RoundedRectangle::with_equal_corners(Rectangle::new(tl, Size::new(w, h)), Size::new(rng.u32r(0, w), rng.u32r(0, h)));
+                    row_boundaries(ctx, "rounded_rectangle", &rr, &|| format!("{:?}", rr), rng);
+                }
+            }
         });
         // a few large shapes (sizes beyond 255), all six primitives
         let nl = run.tier(96u64, 3000u64);
